@@ -37,3 +37,23 @@ package utils
 //@   trusted "byte scan abstracted by an uninterpreted predicate of the string"
 //@   pure
 //@   ensures result == uf_b_invalidHeaderChar(s)
+
+// ---- timers: trusted API (property C19 is not applicable to this technique: goroutines, select, runtime timers)
+//@ func SetTimeout(fn, sleep)
+//@   trusted "utils/timer.go is outside the sequential subset (C19 not applicable)"
+//@   fresh
+//@   ensures result != nil
+//@ func SetInterval(fn, sleep)
+//@   trusted "utils/timer.go is outside the sequential subset (C19 not applicable)"
+//@   fresh
+//@   ensures result != nil
+//@ func ClearTimeout(timer)
+//@   trusted "utils/timer.go is outside the sequential subset (C19 not applicable)"
+//@   noeffect
+//@ func ClearInterval(timer)
+//@   trusted "utils/timer.go is outside the sequential subset (C19 not applicable)"
+//@   noeffect
+//@ func (*Timer).Refresh()
+//@   trusted "utils/timer.go is outside the sequential subset (C19 not applicable)"
+//@   requires t != nil
+//@   noeffect
